@@ -45,6 +45,7 @@ def run(job, root):
     seed = int(job['seed'])
     tier = job.get('tier', 'quick')
     world = World(root, seed)
+    world.known = list(job.get('known') or [])
     replay = job.get('replay')
     rng = rng_for(seed, 'main')
     if replay is not None:
